@@ -42,6 +42,12 @@ def run(ctx):
         cases.append(dict(id=fid, ink=p["ink"], seed=42, fuel=40000, script=st + probes,
                           explore=dict(depth=depth, max_paths=maxp)))
         meta[fid] = dict(kind="fresh", nprobe=len(probes))
+        # fresh story + a jump to each knot: what visit counts / text a reset story must reproduce
+        for kn in p["knots"][:4]:
+            jid = f"{p['id']}|freshjump|{kn}"
+            cases.append(dict(id=jid, ink=p["ink"], seed=42, fuel=40000,
+                              script=st + [["PATH", kn, True], ["CONT"]] + probes))
+            meta[jid] = dict(kind="freshjump")
         for (path, ops) in hist.histories(ctx, t, 2 if ctx.quick() else 5):
             cuts = list(range(len(ops) + 1))
             if ctx.quick() and len(cuts) > 4:
@@ -60,6 +66,12 @@ def run(ctx):
                                   script=st + ops[:k] + extra + [["RESET"]] + probes,
                                   explore=dict(depth=depth, max_paths=maxp)))
                 meta[cid] = dict(kind="reset", fresh=fid, prog=p, nprobe=len(probes))
+                if p["knots"]:
+                    kn = ctx.rng.choice(p["knots"][:4])
+                    jid = f"{p['id']}|{path}|{k}|{len(extra)}|rj|{kn}"
+                    cases.append(dict(id=jid, ink=p["ink"], seed=42, fuel=40000,
+                                      script=st + ops[:k] + extra + [["RESET"], ["PATH", kn, True], ["CONT"]] + probes))
+                    meta[jid] = dict(kind="resetjump", fresh=f"{p['id']}|freshjump|{kn}", prog=p, nprobe=len(probes))
             # path jump with call-stack reset: variables and counts kept, one thread / one element
             if p["knots"]:
                 k = ctx.rng.randint(0, len(ops))
@@ -100,6 +112,19 @@ def run(ctx):
                 fails.append(dict(key="reset-play-differs-from-fresh", case=case,
                                   first_difference=dict(fresh=a[d] if d < len(a) else None,
                                                         after_reset=b[d] if d < len(b) else None)))
+        elif m["kind"] == "resetjump":
+            f = res.get(m["fresh"])
+            if not f or f.get("out_of_fuel") or r.get("crash") is not None:
+                continue
+            rl = next((l for l in r["lines"] if l.startswith('["RESET"]')), "")
+            if " => ok" not in rl:
+                continue
+            n_checked += 1
+            k = m["nprobe"] + 2
+            a = [hist.split_line(l)[1] for l in f["lines"][-k:]]
+            b = [hist.split_line(l)[1] for l in r["lines"][-k:]]
+            if a != b:
+                fails.append(dict(key="jump-after-reset-differs-from-fresh", case=case, fresh=a, after_reset=b))
         elif m["kind"] == "jump":
             lines = r["lines"]
             jl = next((i for i, l in enumerate(lines) if l.startswith('["PATH"')), None)
@@ -113,7 +138,7 @@ def run(ctx):
                 fails.append(dict(key="path-reset-changes-variables", case=case, before=before, after=after))
             elif "threads=[1]" not in info or "choices=0" not in info:
                 fails.append(dict(key="path-reset-keeps-callstack", case=case, info=info))
-    sample = [c for c in cases if meta[c["id"]]["kind"] == "reset"]
+    sample = [c for c in cases if meta[c["id"]]["kind"] in ("reset", "resetjump")]
     ctx.rng.shuffle(sample)
     sample = sample[: (60 if ctx.quick() else 600)]
     mcases = [dict(c, id="m:" + c["id"]) for c in sample]
